@@ -529,6 +529,13 @@ func BuilderSystematic() []sysCase {
 	return out
 }
 
+// ownHelper picks one of the resource helpers that are plugin `who`'s own (index ≡ who mod 6),
+// so that two plugins rarely name the same field.
+func ownHelper(r *rand.Rand, who int) int {
+	n := (len(ResourceHelpers) - who + NPlugins - 1) / NPlugins
+	return who + NPlugins*r.Intn(n)
+}
+
 var keyedHelpers = []string{"AddAnnotation", "AddMount", "AddEnv", "AddDevice"}
 
 // randomAdjProg: 1–12 calls, mostly on the plugin's own keys so that chains are mostly
@@ -570,7 +577,7 @@ func (g *Gen) randomAdjProg(who int, stray float64) []JCall {
 		case x < 13: // a resource helper, mostly one of the plugin's own (who, who+6, who+12)
 			j := g.R.Intn(len(ResourceHelpers))
 			if !g.chance(stray) {
-				j = who + NPlugins*g.R.Intn(3)
+				j = ownHelper(g.R, who)
 			}
 			h := ResourceHelpers[j]
 			k := g.key(helperKind[h].kind, who, stray)
@@ -615,7 +622,7 @@ func (g *Gen) randomUpdProg(who int, target string, stray float64) []JCall {
 	for i := 0; i < n; i++ {
 		j := g.R.Intn(len(ResourceHelpers))
 		if !g.chance(stray) {
-			j = who + NPlugins*g.R.Intn(3)
+			j = ownHelper(g.R, who)
 		}
 		h := ResourceHelpers[j]
 		if h == "AddLinuxHugepageLimit" {
